@@ -57,7 +57,10 @@ func Shrink(p *Plan) []any {
 	if c.CanaryPct > 0 {
 		try(func(q *Plan) { q.Cfg.CanaryPct = 0 })
 	}
-	if c.ReusePort {
+	if c.Sibling {
+		try(func(q *Plan) { q.Cfg.Sibling = false })
+	}
+	if c.ReusePort && !c.Sibling {
 		try(func(q *Plan) { q.Cfg.ReusePort = false })
 	}
 	if c.Listeners != 0 {
